@@ -184,6 +184,9 @@ def gen_lineup(rng, n=None, kinds=None, first_free=True, max_bs=4):
 
 
 # --------------------------------------------------------------------------- watchdog for third-party loops
+LIMIT = 600  # seconds; only guards against third-party infinite loops - generous on purpose (SIGALRM must not fire in healthy code)
+
+
 class Timeout(Exception):
     pass
 
